@@ -71,3 +71,19 @@ Definition backup_run_fail (c : pcfg) (s0 : pstate) (ts2 ts5 : Z) (evM evA : lis
   let (s5, _) := savepoint c (set_stage s4 BKP_WAL_COPY2) ts5 true in
   (* held exclusively here: the error exit of this stage is `unlock:` - releases, then falls into `finish:` *)
   (set_stage s5 0, false).
+
+(* the same call when stage 5 does NOT exclude the writers (the seeded change of round 4: BKP_WAL_COPY2 under the log
+   mutex instead of the store's exclusive lock): an operation can be in flight across the closing savepoint.
+   evA then ends in the middle of that operation and ev5 = the listener calls it makes after the savepoint, while
+   the last loop copies whatever reaches the log file.  With ev5 = [] and evA ending at an operation boundary this is
+   backup_run.  That the real call makes every write to the target from the closing savepoint on under the
+   exclusive lock is observed by harness/h_bkpload.c (lock skeleton, `quiet`). *)
+Definition backup_run_w5 (c : pcfg) (s0 : pstate) (ts2 ts5 : Z) (evM evA ev5 : list event) : bytes * pstate :=
+  let (s1, _) := checkpoint c (set_stage s0 BKP_WAL_CLEANUP) false ts2 in
+  let main := p_disk s1 in
+  let (s2, _) := run c (set_stage s1 BKP_MAIN_COPY) evM in
+  let (s3, _) := flush_wl c (set_stage s2 BKP_WAL_COPY1) false in
+  let (s4, _) := run c s3 evA in
+  let (s5, _) := savepoint c (set_stage s4 BKP_WAL_COPY2) ts5 true in
+  let (s6, _) := run c s5 ev5 in
+  (mk_image main (p_log s6), set_stage s6 0).
